@@ -139,8 +139,9 @@ func runOneHistory(r *hx.Run, h *histRunner, a, b, c []byte, ia, ib, ic result, 
 			h.name, d.desc, g1.kind, len(g1.items), g2.kind, len(g2.items), hx.Hex(d.data), hx.Hex(a), hx.Hex(c)))
 		return
 	}
-	if gc {
-		// A → pools emptied → D
+	if gc || g1.ok() {
+		// A → pools emptied → D (always when the damaged feed was accepted:
+		// an acceptance that rests on state left by an earlier call shows here)
 		if !check("at the start of a history", a, ia) {
 			return
 		}
